@@ -81,13 +81,9 @@ Definition wf (st : stack) (m : mt) (h : dh) (f : fields) : Prop :=
   | _, _ => False
   end.
 
-(* what decoding the encoding of (h, f) yields: the same fields, with the dtlcp header fields in
-   their decoded form (fragment_length = body length), and -- dtlcp ClientHello only -- the
-   supported groups / signature algorithms reduced to their last value (finding K6) *)
-Definition decoded_form (st : stack) (bs : bytes) (h : dh) (f : fields) : dh * fields :=
-  (match st with ST => h0 | SD => mkDH (dh_seq h) 0 (len bs - 12) end,
-   match st, f with
-   | SD, FCH x => FCH (ch_set_sigalgs (ch_set_curves x (last_only (ch_curves x) []))
-                                      (last_only (ch_sigalgs x) []))
-   | _, _ => f
-   end).
+(* the header fields decoding the encoding of (h, f) yields: tlcp has none; the dtlcp decoder
+   reports message_seq as given, fragment_offset 0 and fragment_length = body length (marshal
+   writes fragment_length = length when the stored fragment_length is 0 = "whole message",
+   which wf requires) *)
+Definition decoded_hdr (st : stack) (bs : bytes) (h : dh) : dh :=
+  match st with ST => h0 | SD => mkDH (dh_seq h) 0 (len bs - 12) end.
